@@ -1,6 +1,6 @@
 pub(crate) fn vertical_rate(message: &[u32]) -> Option<i32> {
     crate::flag_and_range_value(message, 69, 70, 78)
-        .filter(|&f| f.1 != 1)
+        .filter(|&f| f.1 != 0)
         .map(|(sign, value)| vertical_rate_value(sign, value))
 }
 
